@@ -60,8 +60,11 @@ func genCase(rng *rand.Rand, mode string, idx int) Case {
 			return Op{K: "SetBalance", A: a, V: rng.Intn(7)}
 		case x < 57:
 			return Op{K: "Transfer", A: a, B: addr(), V: rng.Intn(7)}
-		case x < 62:
-			return Op{K: "SetCode", A: a, V: rng.Intn(3)}
+		case x < 65: // repeated SetCode, mostly on one account per history, every blob fresh
+			if rng.Intn(10) < 6 {
+				a = hot[0]
+			}
+			return Op{K: "SetCode", A: a, V: freshCode(rng)}
 		case x < 70:
 			return Op{K: "CreateAccount", A: a}
 		case x < 75:
@@ -124,6 +127,9 @@ func genCase(rng *rand.Rand, mode string, idx int) Case {
 			if rng.Intn(3) > 0 {
 				h = append(h, Op{K: "Prepare", V: rng.Intn(3)})
 			}
+			if rng.Intn(5) < 2 { // code set in the still uncommitted state, before the outer snapshot
+				h = append(h, Op{K: "SetCode", A: hot[0], V: freshCode(rng)})
+			}
 			var open []int
 			steps := 6 + rng.Intn(20)
 			for i := 0; i < steps; i++ {
@@ -132,6 +138,9 @@ func genCase(rng *rand.Rand, mode string, idx int) Case {
 					label++
 					h = append(h, Op{K: "Snapshot", ID: label})
 					open = append(open, label)
+					if rng.Intn(4) == 0 { // replaced below this snapshot, at whatever depth it is
+						h = append(h, Op{K: "SetCode", A: hot[0], V: freshCode(rng)})
+					}
 				case x < 24 && len(open) > 0:
 					j := len(open) - 1
 					if rng.Intn(10) < 3 {
@@ -139,6 +148,9 @@ func genCase(rng *rand.Rand, mode string, idx int) Case {
 					}
 					h = append(h, Op{K: "Revert", ID: open[j]})
 					open = open[:j]
+					if rng.Intn(5) == 0 { // between snapshots / in the kept region after a revert
+						h = append(h, Op{K: "SetCode", A: hot[0], V: freshCode(rng)})
+					}
 				case x < 27 && len(open) > 0:
 					open = open[:len(open)-1] // frame returns successfully: snapshot never reverted
 				case x < 78:
@@ -175,6 +187,55 @@ func genCase(rng *rand.Rand, mode string, idx int) Case {
 	return Case{Mode: mode, Hist: h, Final: fm, Index: idx}
 }
 
+// freshCode draws a code index that denotes a blob of its own (see codeBlob).
+func freshCode(rng *rand.Rand) int { return 3 + rng.Intn(1<<40) }
+
+// codeNestingCases: repeated SetCode on one account inside ONE uncommitted state, at every
+// nesting depth up to 3, every revert/keep pattern, with the first code uncommitted,
+// committed or absent, with and without further SetCode between the closings.
+func codeNestingCases(mode string, idx *int) []Case {
+	var out []Case
+	pres := [][]Op{
+		{{K: "SetNonce", A: 1, V: 1}, {K: "SetCode", A: 1, V: 101}},
+		{{K: "SetNonce", A: 1, V: 1}, {K: "SetCode", A: 1, V: 101}, {K: "Reopen", D: true}},
+		{{K: "SetNonce", A: 1, V: 1}},
+		{{K: "SetNonce", A: 1, V: 1}, {K: "SetCode", A: 1, V: 100}, {K: "Reopen", D: true}, {K: "SetCode", A: 1, V: 101}},
+	}
+	for pi, pre := range pres {
+		for depth := 1; depth <= 3; depth++ {
+			for mask := 0; mask < 1<<uint(depth); mask++ {
+				for between := 0; between < 2; between++ {
+					for _, fm := range []finalMode{{D: true, IR: true}, {D: true, IR: false}} {
+						var h []Op
+						if mode == "bound" {
+							h = append(h, Op{K: "Bind"})
+						}
+						h = append(h, pre...)
+						h = append(h, Op{K: "Prepare", V: 1})
+						for l := 1; l <= depth; l++ {
+							h = append(h, Op{K: "Snapshot", ID: l}, Op{K: "SetCode", A: 1, V: 110 + 10*pi + l})
+						}
+						for l := depth; l >= 1; l-- {
+							if mask&(1<<uint(l-1)) != 0 {
+								h = append(h, Op{K: "Revert", ID: l})
+							}
+							if between == 1 && l > 1 {
+								h = append(h, Op{K: "SetCode", A: 1, V: 150 + 10*pi + l})
+							}
+						}
+						if mask == 0 {
+							continue
+						}
+						out = append(out, Case{Mode: mode, Hist: h, Final: fm, Index: *idx})
+						*idx++
+					}
+				}
+			}
+		}
+	}
+	return out
+}
+
 // directed histories: every mutator kind alone in a reverted region on each
 // account life-cycle class (absent, created-empty, created, loaded storage-only,
 // loaded with nonce, loaded contract, self-destructed), plus the nested variants.
@@ -184,6 +245,7 @@ func directedCases(mode string) []Case {
 		nil, // absent
 		{{K: "CreateAccount", A: 1}},
 		{{K: "SetNonce", A: 1, V: 1}},
+		{{K: "SetNonce", A: 1, V: 1}, {K: "SetCode", A: 1, V: 7}}, // code only in the uncommitted state
 		{{K: "SetData", A: 1, S: 1, V: 1}, {K: "Reopen", D: true}},
 		{{K: "SetData", A: 1, S: 1, V: 1}, {K: "SetNonce", A: 1, V: 2}, {K: "Reopen", D: true}},
 		{{K: "SetCode", A: 1, V: 1}, {K: "SetState", A: 1, S: 0, V: 2}, {K: "AddBalance", A: 1, V: 4}, {K: "Reopen", D: true}},
@@ -209,6 +271,7 @@ func directedCases(mode string) []Case {
 	pres := [][]Op{nil, {{K: "SetData", A: 1, S: 3, V: 3}, {K: "GetCommittedState", A: 1, S: 0}}, {{K: "SetState", A: 1, S: 0, V: 3}, {K: "GetCommittedState", A: 1, S: 0}},
 		{{K: "GetData", A: 1, S: 1}, {K: "GetBalance", A: 1}}}
 	idx := 1000000
+	out = append(out, codeNestingCases(mode, &idx)...)
 	for _, su := range setups {
 		for _, m := range muts {
 			for pi, post := range posts {
